@@ -148,6 +148,7 @@ def run_one_path(env, con, fn, ctx):
         y = ctx.ghost.get("yielded")
         ns["yielded"] = y if y is not None else ctx.yielded
         ns["trace"] = ctx.trace
+        ctx.ghost["trace"] = ctx.trace
         ns["ghost"] = ctx.ghost
         ns["received"] = ctx.ghost.get("received", [])
         ns.update(extra)
